@@ -224,6 +224,12 @@ func init() {
 			o.TightTmo = 10
 			o.WClose = 0
 			o.MaxPkts = 18
+			if r.Intn(2) == 0 {
+				// ordered channels only, then also hard restarts through genesis export/import
+				// (nothing aliased, so the restart is expected to preserve everything)
+				o.Kinds = []string{"v1o", "loco"}
+				o.WGenesis, o.WRestart = 3, 2
+			}
 		},
 		func(ck *sim.Check) {
 			ck.RequiredProbes = []string{"ordered_out_of_order_receive_refused", "ordered_out_of_order_ack_refused"}
